@@ -1,15 +1,17 @@
 # C02 - parsing is total, lossless and position-accurate.
 # Bounded exhaustive, real mparser.Parser / RawPrinter on every input:
-#   tokens : every token sequence of length <= N over the DESIGN's token alphabet, rendered with three separator
-#            policies; sound prefix pruning (a reject whose lookahead token ends before the last token of the prefix
-#            is the verdict of every extension: lazy lexer + one token of lookahead), re-validated on a 1-in-K slice
+#   tokens_full : every realisable token sequence of length <= 4 (quick) / 5 (thorough) over the DESIGN's 41-token
+#            alphabet, rendered with three separator policies; sound prefix pruning (a reject raised by the parser while
+#            its lookahead token ends before the last token of the prefix is the verdict of every extension: lazy lexer,
+#            self-delimiting lexemes, one token of lookahead), re-validated on a 1-in-K slice of the pruned prefixes
+#   tokens_core : (thorough) length <= 6 over a 21-token core alphabet, single spaces
 #   corpus : every meson.build / meson.options / meson_options.txt under the repo, and for every distinct file of
-#            <= T tokens its complete single-edit neighbourhood (delete, duplicate, swap, replace by each alphabet token)
-#   chars  : every string of length <= L over a 21-character set, alone (lexer + parser) and inside two frames
+#            <= 20 / 60 tokens its complete single-edit neighbourhood (delete, duplicate, swap, replace by each alphabet token)
+#   chars  : every string of length <= 3 / 4 over a 21-character set: lexer alone, and parser alone + inside two frames
 # Oracle (c02core.evaluate): a MesonException with a line/column inside the text, or a tree whose RawPrinter output is
 # the input byte for byte and whose every FunctionNode/ArrayNode extent, cut with the rewriter's offset arithmetic,
-# is exactly the construct. Any other exception is a violation.
-import glob, json, os, sys, zlib
+# is exactly the construct. Any other exception is a violation. Defect classes get narrow keys (c02core.classify_*).
+import json, os, sys, zlib
 from verif.core import Check, pmap, run_main, REPO, InternalError
 from verif import c02core as cc
 from verif.c02core import evaluate
@@ -107,7 +109,7 @@ class Acc:
         for key, what in o.viol:
             ent = self.viol.setdefault(key, [0, []])
             ent[0] += 1
-            ent[1].append(((len(text), text), text, what, origin() if callable(origin) else origin))
+            ent[1].append(((len(text), text), text, what, origin() if callable(origin) else origin, 'parse'))
             if len(ent[1]) > 6:
                 ent[1].sort()
                 del ent[1][3:]
@@ -407,7 +409,9 @@ def lexer_alone(text):
     except MesonException as e:
         ln, cn = getattr(e, 'lineno', None), getattr(e, 'colno', None)
         if not cc.position_ok(text, ln, cn):
-            return 'reject', ('C02:lexer:position-outside-text', 'lexer error at %r,%r' % (ln, cn))
+            key = cc.classify_position(text, ln, cn, None)
+            return 'reject', ('C02:lexer:position-outside-text' if key.endswith(':outside-text') else key,
+                              'lexer error at line %r col %r which is not a position inside the text' % (ln, cn))
         return 'reject', None
     except Exception as e:
         return 'crash', ('C02:lexer:exception:' + type(e).__name__, '%s escaped the lexer: %s' % (type(e).__name__, str(e)[:200]))
@@ -438,7 +442,7 @@ def chars_job(first):
             ent = acc.viol.setdefault(v[0], [0, []])
             ent[0] += 1
             if len(ent[1]) < 3:
-                ent[1].append(((len(s), s), s, v[1], 'chars(lexer alone) %r' % s))
+                ent[1].append(((len(s), s), s, v[1], 'chars(lexer alone) %r' % s, 'lexer'))
         for pre, post in FRAMES:
             t = pre + s + post
             o = evaluate(t, False)
@@ -469,15 +473,14 @@ def report(ck, total):
     for key in sorted(total.viol, key=lambda k: (total.viol[k][1][0][0][0] if total.viol[k][1] else 0, k)):
         cnt, exs = total.viol[key]
         ck.add('cases:' + key, cnt)
-        for rank, text, what, origin in sorted(exs)[:3]:
-            if key.startswith('C02:lexer:'):
-                again = [lexer_alone(text)[1]]
-                again = [a for a in again if a]
+        for rank, text, what, origin, mode in sorted(exs)[:3]:
+            if mode == 'lexer':
+                again = [a for a in [lexer_alone(text)[1]] if a]
             else:
                 again = evaluate(text, False).viol
             if key not in [k for k, _ in again]:
                 raise InternalError('violation %s on %r did not reproduce in the parent process' % (key, text))
-            ck.violation(key, '%s -- input %r (%s)' % (what, text[:200], origin), {'text': text, 'origin': origin})
+            ck.violation(key, '%s -- input %r (%s)' % (what, text[:200], origin), {'text': text, 'origin': origin, 'mode': mode})
 
 
 def main():
@@ -497,12 +500,19 @@ def main():
         ck.internal('vacuity/self-check failed: ' + '; '.join(UNMET))
     for s in total.samples[:2]:
         ck.sample(s)
+    for t in ("a([1], b)\n", "x = [\n  'y',  # c\n]\n", "( [ 1 ]", "if a\n"):
+        o = evaluate(t, False)
+        ck.sample({'input': t, 'outcome': o.sig, 'error_line_col': o.errpos, 'extents_checked': o.nconstructs})
     ck.assume('a position "inside the text" is 1 <= line <= number of lines (a trailing newline opens one more, empty, line) and '
               '0 <= column <= length of that line including its terminating newline; the BOM error is at 0/0 as documented')
     ck.assume('"trailing whitespace" of a printed node is its final run of blanks, newlines, comments and line continuations, '
               'found with a scanner written from Syntax.md')
     ck.assume('unspecified corner: texts containing a bare CR are not extent-checked (files are read with universal newlines, '
               'so a CR never reaches the parser); counted as skipped_unspecified')
+    ck.assume('the parser runs in user mode: the `testcase` statement only exists under MESON_RUNNING_IN_PROJECT_TESTS (meson\'s own '
+              'test runner); the 22 corpus files using it are rejected here with a located error, which satisfies the property')
+    ck.assume('a token sequence in which a comment is followed by anything but a newline is not realisable (the rest of the line '
+              'is the comment); such sequences are excluded from the token space and counted as unrealisable_inputs')
     ck.assume('E6 second opinion (accept/reject agreement with the reference grammar) is not built yet: accepting an '
               'ill-formed program such as `x = 1 +` is not judged here')
     ck.finish(evaluations=total.n.get('evaluations', 0), distinct_nontrivial=len(total.sigs),
@@ -523,13 +533,15 @@ def replay(ck):
     text = d['text']
     print('replay input %r (%s)' % (text, d.get('origin')))
     print('expected: located MesonException, or accepted with RawPrinter output == input and every call/array extent exact')
-    if d.get('key', '').startswith('C02:lexer:'):
+    if d.get('mode') == 'lexer':
+        print('(lexer alone: a located MesonException, or tokens whose spans tile the text)')
         cls, v = lexer_alone(text)
         viol = [v] if v else []
+        print('observed: %s' % cls)
     else:
         o = evaluate(text, False)
         cls, viol = o.cls, o.viol
-        print('observed: %s %s' % (cls, o.errpos if cls == 'reject' else ''))
+        print('observed: %s %s %s' % (cls, o.sig, 'at line/col %r' % (o.errpos,) if cls == 'reject' else ''))
     for k, w in viol:
         print('  still violates: %s: %s' % (k, w))
     sys.exit(1 if viol else 0)
